@@ -237,3 +237,21 @@ C["kneeliverse.evaluation.rmspe#perfect"] = dict(
                           "sq(b[idx][0] - p[0]) + sq(b[idx][1] - p[1]) == 0",
                           "b[idx][0] == p[0] and b[idx][1] == p[1]",
                           "e[0] == 0 and e[1] == 0"])})
+
+
+# ------------------------------------------------------------------ C15: the per-segment error itself (definitional contract; the summary
+# above - deterministic and >= 0 - is what the global-cost proofs use at call sites, this one verifies both facts and the formulas)
+_S = lambda body: "Sum(0, len(y), lambda k: %s)" % body
+_PC = {"r2": _S("sq(y[k] - y_hat[k])"), "rmsle": _S("sq(log(y[k] + 1) - log(y_hat[k] + 1))"),
+       "rmspe": _S("sq((y[k] - y_hat[k]) / (y[k] + eps))"), "rpd": _S("absr((y[k] - y_hat[k]) / (max2(y[k], y_hat[k]) + eps))"),
+       "smape": _S("2.0 * absr(y_hat[k] - y[k]) / (absr(y[k]) + absr(y_hat[k]) + eps)")}
+C["kneeliverse.evaluation.compute_partial_cost#def"] = dict(
+    function="kneeliverse.evaluation.compute_partial_cost", mode="R", owner="C15",
+    params={"y": V, "y_hat": V, "cost": METRIC, "eps": "Real"}, returns="Real",
+    requires=["len(y) == len(y_hat)", "eps > 0", "forall(0, len(y), lambda k: y[k] >= 0 and y_hat[k] >= 0)"],
+    ensures=["implies(cost is metrics.Metrics.%s, result == %s)" % (m, f) for m, f in _PC.items() if m != "smape"]
+            + ["implies(not (cost is metrics.Metrics.r2 or cost is metrics.Metrics.rmsle or cost is metrics.Metrics.rmspe or cost is metrics.Metrics.rpd), result == %s)" % _PC["smape"],
+               "result >= 0"],
+    post_hints=["forall(0, len(y), lambda k: absr(y[k]) + absr(y_hat[k]) + eps > 0)",
+                "forall(0, len(y), lambda k: 2.0 * absr(y_hat[k] - y[k]) / (absr(y[k]) + absr(y_hat[k]) + eps) >= 0)"],
+)
